@@ -2,6 +2,7 @@ package main
 
 import (
 	"go/types"
+	osexec "os/exec"
 	"encoding/hex"
 	"fmt"
 	"math/big"
@@ -31,7 +32,7 @@ type RunConfig struct {
 }
 
 func defaultConfig() *RunConfig {
-	return &RunConfig{MaxDecisions: 4000, MaxDepth: 200, MaxLoop: 5000, Workers: 16, TimeoutMs: 60000, MaxPaths: 2000000, SolverKind: "z3", MaxViolationsPerLabel: 1}
+	return &RunConfig{MaxDecisions: 4000, MaxDepth: 200, MaxLoop: 5000, Workers: 16, TimeoutMs: 60000, MaxPaths: 2000000, SolverKind: defaultSolver(), MaxViolationsPerLabel: 1}
 }
 
 type Violation struct {
@@ -593,6 +594,7 @@ func (e *Exec) checkAssert(c *Term, label string) {
 		e.reportViolation("assert", label, "assertion is constant false on this path")
 		panic(abortf("STOP after violated assertion"))
 	}
+	e.Solver.emit(c)
 	e.Solver.Push()
 	e.Solver.Assert(Not(c))
 	// known findings: report the listed region separately, then exclude it
@@ -707,4 +709,36 @@ func init() {
 	reg("AddressCodec", func(e *Exec, fn *ssa.Function, a []Value) Value { return opq("addrcodec") })
 	reg("Logger", func(e *Exec, fn *ssa.Function, a []Value) Value { return opq("logger") })
 	reg("GasUsed", func(e *Exec, fn *ssa.Function, a []Value) Value { return e.store_().Gas })
+}
+
+func init() {
+	reg := func(m string, f func(e *Exec, fn *ssa.Function, a []Value) Value) { intrinsics[vrtKey(m)] = f }
+	reg("B2I", func(e *Exec, fn *ssa.Function, a []Value) Value { return Ite(a[1].(*Term), BVI(64, 1), BVI(64, 0)) })
+	reg("Both", func(e *Exec, fn *ssa.Function, a []Value) Value { return And(a[1].(*Term), a[2].(*Term)) })
+	reg("Either", func(e *Exec, fn *ssa.Function, a []Value) Value { return Or(a[1].(*Term), a[2].(*Term)) })
+	reg("Implies", func(e *Exec, fn *ssa.Function, a []Value) Value { return Implies(a[1].(*Term), a[2].(*Term)) })
+	pick := func(e *Exec, fn *ssa.Function, a []Value) Value { return Ite(a[1].(*Term), a[2].(*Term), a[3].(*Term)) }
+	reg("PickU64", pick)
+	reg("PickInt", pick)
+	reg("PickBytes", func(e *Exec, fn *ssa.Function, a []Value) Value {
+		x, y := sliceTerms(a[2]), sliceTerms(a[3])
+		if len(x) != len(y) {
+			panic(abortf("ENGINE PickBytes length mismatch"))
+		}
+		out := make([]*Term, len(x))
+		for i := range x {
+			out[i] = Ite(a[1].(*Term), x[i], y[i])
+		}
+		return mkByteSliceOrNil(out)
+	})
+}
+
+func defaultSolver() string {
+	if k := os.Getenv("GOSYM_SOLVER"); k != "" {
+		return k
+	}
+	if _, err := osexec.LookPath("z3-new"); err == nil {
+		return "z3-new"
+	}
+	return "z3"
 }
